@@ -57,6 +57,14 @@ Theorem C16_panic_untouched : forall e c s,
 Proof. exact run_panic_untouched. Qed.
 Print Assumptions C16_panic_untouched.
 
+(* ---- bytes outside the buffer a call is applied to are never modified (memory is a total map here: offsets below 0
+        and beyond the capacity are the bytes around the region) - in particular nothing outside the root region *)
+Theorem C16_outside_untouched : forall e c s,
+  wf_env e -> wf_call c -> log_inside (e_rcap e) (e_scap e) (s_log s) ->
+  forall i, ~ (e_base e <= i < e_base e + e_cap e) -> s_mem (snd (run e c s)) i = s_mem s i.
+Proof. exact run_frame. Qed.
+Print Assumptions C16_outside_untouched.
+
 (* ---- on the fixture of the harness: the touched ranges of one call *)
 Theorem C16_touched_inside : forall m rcap scap p w c,
   0 <= rcap < two31 -> 0 <= scap < two31 -> wf_call c ->
